@@ -6,6 +6,13 @@
 // substituted, one flag substituted, a different root, a related set containing a hash
 // that is foreign or not proven) must be rejected. The root and the meaning of a proof
 // are defined independently here (byte-level recursive definition on SHA3-256).
+//
+// Ids are not only opaque digests: a family of 32-byte values of special form (specials():
+// every zero / non-zero pattern of the four 64-bit words of bc.Hash, all-ones, lowest / highest
+// bit only, SHA3-256("")) is used as foreign id at every position of the claimed set, as proof
+// hash substitute, as wrong root, and as a MEMBER of the list at every position (small lists,
+// every subset, every tampering), so a validator or generator that treats some id value
+// specially (skips, normalises or short-cuts it) is seen.
 package main
 
 import (
@@ -107,6 +114,59 @@ func mkID(tag string, i int) h32 {
 	return sha3.Sum256(append([]byte("verif C30 "+tag+" "), b[:]...))
 }
 
+// special is a 32-byte value of special form. bc.Hash holds an id as four big-endian 64-bit
+// words, so "special" is defined on words as well as on bytes.
+type special struct {
+	name string
+	v    h32
+}
+
+func specials() []special {
+	var out []special
+	op := mkID("word", 0)
+	for m := 1; m < 16; m++ { // bit w set = word w is zero; m=15 is the all-zero id
+		v := op
+		name := "words "
+		for w := 0; w < 4; w++ {
+			if m>>uint(w)&1 == 1 {
+				for b := 0; b < 8; b++ {
+					v[w*8+b] = 0
+				}
+				name += "0"
+			} else {
+				name += "x"
+			}
+		}
+		if m == 15 {
+			name = "all-zero id"
+		} else {
+			name += " (0 = zero 64-bit word, x = opaque)"
+		}
+		out = append(out, special{name, v})
+	}
+	var ones, low, high h32
+	for i := range ones {
+		ones[i] = 0xff
+	}
+	low[31] = 1
+	high[0] = 0x80
+	out = append(out, special{"all-ones id", ones}, special{"id 00..01", low}, special{"id 80..00", high},
+		special{"SHA3-256 of the empty string", sha3.Sum256(nil)})
+	return out
+}
+
+// the few specials used where the whole family would be too expensive (large lists)
+func specialsFew(all []special) []special {
+	var out []special
+	for _, s := range all {
+		switch s.name {
+		case "all-zero id", "all-ones id", "id 00..01", "words 0xxx (0 = zero 64-bit word, x = opaque)", "words xxx0 (0 = zero 64-bit word, x = opaque)":
+			out = append(out, s)
+		}
+	}
+	return out
+}
+
 type list struct {
 	n      int
 	ids    []h32
@@ -114,12 +174,28 @@ type list struct {
 	txs    []*types.Tx
 	bcTxs  []*bc.Tx
 	root   h32
+	// member of special form (specPos < 0: none)
+	specPos  int
+	specName string
+	// special values used as foreign ids / hash substitutes / roots for this list
+	spec []special
 }
 
-func mkList(n int) *list {
-	l := &list{n: n}
+func mkList(n int, spec []special) *list { return mkListWith(n, -1, special{}, spec) }
+
+// mkListWith: list of n ids, all opaque except (pos >= 0) the one at pos, which is sp.v.
+func mkListWith(n, pos int, sp special, spec []special) *list {
+	l := &list{n: n, specPos: pos, specName: sp.name}
+	for _, s := range spec {
+		if pos < 0 || s.v != sp.v {
+			l.spec = append(l.spec, s)
+		}
+	}
 	for i := 0; i < n; i++ {
 		id := mkID("tx", i)
+		if i == pos {
+			id = sp.v
+		}
 		l.ids = append(l.ids, id)
 		l.leaves = append(l.leaves, refLeaf(id))
 		btx := &bc.Tx{ID: bc.NewHash(id)}
@@ -181,10 +257,14 @@ type result struct {
 	tamperHash, tamperFlag    int
 	wrongRoot, foreign        int
 	obsTrailing, obsReversed  int
+	specForeign, specHash     int
+	specRoot, specMember      int
+	nilPanic, nilRej, nilAcc  int
 	shapes                    map[string]int
 	viols                     []viol
 	seen                      map[string]bool
 	sample                    interface{}
+	ctx                       string // appended to violation texts (names the special list member)
 }
 
 func (r *result) violation(key, what string, c interface{}) {
@@ -192,7 +272,7 @@ func (r *result) violation(key, what string, c interface{}) {
 		return
 	}
 	r.seen[key] = true
-	r.viols = append(r.viols, viol{key, what, c})
+	r.viols = append(r.viols, viol{key, what + r.ctx, c})
 }
 
 func hx(h h32) string { return ev.Hex(h[:8]) }
@@ -207,6 +287,11 @@ type caseDesc struct {
 }
 
 func validate(hashes []h32, flags []uint8, relatedIDs []h32, root h32) (ok bool, panicked interface{}) {
+	return validateNil(hashes, flags, relatedIDs, root, -1)
+}
+
+// validateNil: as validate; nilAt >= 0 inserts a nil pointer at that position of the related set.
+func validateNil(hashes []h32, flags []uint8, relatedIDs []h32, root h32, nilAt int) (ok bool, panicked interface{}) {
 	defer func() {
 		if r := recover(); r != nil {
 			panicked = r
@@ -222,11 +307,18 @@ func validate(hashes []h32, flags []uint8, relatedIDs []h32, root h32) (ok bool,
 		h := bc.NewHash(relatedIDs[i])
 		rel[i] = &h
 	}
+	if nilAt >= 0 {
+		rel = append(rel[:nilAt:nilAt], append([]*bc.Hash{nil}, rel[nilAt:]...)...)
+	}
 	fl := append([]uint8(nil), flags...)
 	return types.ValidateTxMerkleTreeProof(hs, fl, rel, bc.NewHash(root)), nil
 }
 
 func runCase(l *list, mask uint64, fullTamper bool, r *result) {
+	r.ctx = ""
+	if l.specPos >= 0 {
+		r.ctx = fmt.Sprintf(" [list element %d is the %s]", l.specPos, l.specName)
+	}
 	var idx []int
 	var related []*types.Tx
 	var relIDs, relLeaves []h32
@@ -240,6 +332,9 @@ func runCase(l *list, mask uint64, fullTamper bool, r *result) {
 	}
 	desc := func(hashes []h32, flags []uint8, tamper string) caseDesc {
 		d := caseDesc{N: l.n, Subset: idx, Flags: flags, Tamper: tamper, IDsRule: "id_i = SHA3-256(\"verif C30 tx \" || uint64be(i))"}
+		if l.specPos >= 0 {
+			d.IDsRule += fmt.Sprintf(", except id_%d = %s = %s", l.specPos, l.specName, ev.Hex(l.ids[l.specPos][:]))
+		}
 		for _, h := range hashes {
 			d.Hashes = append(d.Hashes, hx(h))
 		}
@@ -294,6 +389,9 @@ func runCase(l *list, mask uint64, fullTamper bool, r *result) {
 		shape = "all-leaves"
 	}
 	r.shapes[shape]++
+	if l.specPos >= 0 {
+		r.specMember++
+	}
 	if nAssist > 0 && nLeaf > 0 {
 		r.nontrivial++
 		if r.sample == nil && l.n >= 5 && len(idx) >= 2 {
@@ -344,6 +442,13 @@ func runCase(l *list, mask uint64, fullTamper bool, r *result) {
 		candName = append(candName, name)
 	}
 	addCand(mkID("fresh", l.n), "fresh hash")
+	isSpec := map[int]bool{}
+	keepBig := map[int]bool{0: true}
+	for _, sp := range l.spec {
+		isSpec[len(cands)] = true
+		keepBig[len(cands)] = sp.name == "all-zero id"
+		addCand(sp.v, "the "+sp.name+" "+ev.Hex(sp.v[:]))
+	}
 	if fullTamper {
 		for i := 0; i < l.n; i++ {
 			addCand(l.ids[i], fmt.Sprintf("id of list element %d", i))
@@ -388,14 +493,19 @@ func runCase(l *list, mask uint64, fullTamper bool, r *result) {
 					continue
 				}
 			}
-			if bigProof && ci > 0 && ci < nFixed {
-				continue // long proofs of large lists: fresh hash and the neighbours only
+			if bigProof && ci < nFixed && !keepBig[ci] {
+				continue // long proofs of large lists: fresh hash, all-zero hash and the neighbours only
 			}
 			done[c] = true
 			t := append([]h32(nil), hashes...)
 			t[i] = c
 			r.tamperHash++
-			mustReject("tampered-"+kind+"-hash-accepted", fmt.Sprintf("proof hash %d (%s) replaced by %s", i, kind, candName[ci]), t, flags, relIDs, l.root)
+			key := "tampered-" + kind + "-hash-accepted"
+			if isSpec[ci] {
+				r.specHash++
+				key = "tampered-" + kind + "-hash-replaced-by-value-of-special-form-accepted"
+			}
+			mustReject(key, fmt.Sprintf("proof hash %d (%s) replaced by %s", i, kind, candName[ci]), t, flags, relIDs, l.root)
 		}
 	}
 	// --- tampered flags
@@ -445,6 +555,14 @@ func runCase(l *list, mask uint64, fullTamper bool, r *result) {
 		}
 		r.wrongRoot++
 		mustReject("wrong-root-accepted", "root replaced by "+w.name, hashes, flags, relIDs, w.h)
+	}
+	for _, sp := range l.spec {
+		if sp.v == l.root {
+			continue
+		}
+		r.wrongRoot++
+		r.specRoot++
+		mustReject("wrong-root-of-special-form-accepted", "root replaced by the "+sp.name+" "+ev.Hex(sp.v[:]), hashes, flags, relIDs, sp.v)
 	}
 	// --- related sets with a hash that is not proven
 	foreign := mkID("foreign", l.n)
@@ -497,10 +615,60 @@ func runCase(l *list, mask uint64, fullTamper bool, r *result) {
 		r.foreign++
 		mustReject(v.key, v.name, hashes, flags, v.rel, l.root)
 	}
+	// --- claimed ids of special form that are not in the list: at every position of the claim
+	// (inserted / replacing a member); larger lists: ends and middle only
+	for _, sp := range l.spec {
+		const key = "related-id-of-special-form-not-in-list-accepted"
+		val := "the " + sp.name + " " + ev.Hex(sp.v[:]) + " (not a list member)"
+		var ins, repl []int
+		if fullTamper {
+			for i := 0; i <= len(relIDs); i++ {
+				ins = append(ins, i)
+			}
+			for i := range relIDs {
+				repl = append(repl, i)
+			}
+		} else {
+			pi := map[int]bool{0: true, len(relIDs) / 2: true, len(relIDs): true}
+			for i := range pi {
+				ins = append(ins, i)
+			}
+			sort.Ints(ins)
+			if len(relIDs) > 0 {
+				repl = append(repl, 0)
+				if len(relIDs) > 1 {
+					repl = append(repl, len(relIDs)-1)
+				}
+			}
+		}
+		for _, i := range ins {
+			t := append(append(append([]h32(nil), relIDs[:i]...), sp.v), relIDs[i:]...)
+			r.foreign++
+			r.specForeign++
+			mustReject(key, fmt.Sprintf("%s inserted at position %d of the related set of %d ids", val, i, len(relIDs)), hashes, flags, t, l.root)
+		}
+		for _, i := range repl {
+			t := append([]h32(nil), relIDs...)
+			t[i] = sp.v
+			r.foreign++
+			r.specForeign++
+			mustReject(key, fmt.Sprintf("related id %d of %d replaced by %s", i, len(relIDs), val), hashes, flags, t, l.root)
+		}
+	}
 
 	// --- observations outside the statement (counted, never a violation)
 	if ok2, _ := validate(append(append([]h32(nil), hashes...), foreign), append(append([]uint8(nil), flags...), types.FlagAssist), relIDs, l.root); ok2 {
 		r.obsTrailing++
+	}
+	r.evals++
+	// a nil pointer in the related set is not a hash at all: outcome counted only
+	switch ok2, p2 := validateNil(hashes, flags, relIDs, l.root, len(relIDs)); {
+	case p2 != nil:
+		r.nilPanic++
+	case ok2:
+		r.nilAcc++
+	default:
+		r.nilRej++
 	}
 	r.evals++
 	if len(relIDs) >= 2 {
@@ -544,9 +712,26 @@ func main() {
 		run.Violation("empty-root-not-empty-string-hash", "bc.EmptyStringHash is not SHA3-256 of the empty string", nil)
 	}
 
+	specAll := specials()
+	specFew := specialsFew(specAll)
+	if len(specAll) != 19 || len(specFew) != 5 {
+		ev.Fatal("special-value family has an unexpected size")
+	}
+	seenSpec := map[h32]bool{}
+	for _, sp := range specAll {
+		if seenSpec[sp.v] {
+			ev.Fatal("special-value family has a duplicate")
+		}
+		seenSpec[sp.v] = true
+	}
+
 	var items []item
 	for n := 0; n <= fullN; n++ {
-		l := mkList(n)
+		sp := specAll
+		if n > 8 {
+			sp = specFew // thorough, n = 9..12: the short family keeps the tier inside its time box
+		}
+		l := mkList(n, sp)
 		ms := subsetsAll(n)
 		const chunk = 256
 		for i := 0; i < len(ms); i += chunk {
@@ -559,7 +744,7 @@ func main() {
 	}
 	structCount := 0
 	for _, n := range structured {
-		l := mkList(n)
+		l := mkList(n, specFew)
 		ms := subsetsStructured(n, !run.Thorough() && n > 20)
 		structCount += len(ms)
 		chunk := 64
@@ -569,6 +754,19 @@ func main() {
 				j = len(ms)
 			}
 			items = append(items, item{l, ms[i:j], false})
+		}
+	}
+
+	// lists with a member of special form: every special x every position, every subset,
+	// every tampering (substitutes / foreign ids / roots of special form: the short family)
+	specN := run.Pick(4, 7)
+	specLists := 0
+	for n := 1; n <= specN; n++ {
+		for _, sp := range specAll {
+			for pos := 0; pos < n; pos++ {
+				specLists++
+				items = append(items, item{mkListWith(n, pos, sp, specFew), subsetsAll(n), true})
+			}
 		}
 	}
 
@@ -630,6 +828,13 @@ func main() {
 		run.Add("unproven_related_cases", r.foreign)
 		run.Add("observed_trailing_garbage_after_complete_proof_accepted", r.obsTrailing)
 		run.Add("observed_related_set_in_reverse_order_accepted", r.obsReversed)
+		run.Add("special_form_foreign_related_cases", r.specForeign)
+		run.Add("special_form_hash_substitute_cases", r.specHash)
+		run.Add("special_form_wrong_root_cases", r.specRoot)
+		run.Add("proofs_over_lists_with_special_form_member", r.specMember)
+		run.Add("observed_nil_related_pointer_panics", r.nilPanic)
+		run.Add("observed_nil_related_pointer_rejected", r.nilRej)
+		run.Add("observed_nil_related_pointer_accepted", r.nilAcc)
 		for k, v := range r.shapes {
 			shapes[k] += v
 		}
@@ -668,9 +873,19 @@ func main() {
 	run.Set("structured_list_sizes", structured)
 	run.Set("structured_subsets", structCount)
 	run.Set("max_list_size", maxN)
-	run.Set("rule", "a case is one (n, subset) proof, distinct by construction (every bitmask once per n), plus each of its single tamperings. Non-trivial = proofs that contain at least one assist hash and at least one proven leaf (so the tree is really traversed). For n <= every_subset_up_to_n every subset and, per proof, every hash position x {fresh hash, id and leaf hash of every list element, every other proof hash} and every flag position x {0,1,2,3,255}; for larger n the subsets are size <= 2, contiguous ranges and singleton complements and hash substitutes are the fresh hash, the two neighbouring proof hashes and ids/leaf hashes of the list ends and of the elements at and next to the subset ends (proofs with more than 40 flags: fresh hash and neighbours only, flag values 0..3).")
+	run.Set("special_form_values", len(specAll))
+	run.Set("special_member_lists", specLists)
+	run.Set("special_member_lists_up_to_n", specN)
+	if run.Get("special_form_foreign_related_cases") > 0 {
+		run.Outcome("special-form-foreign-related-rejected")
+	}
+	if run.Get("proofs_over_lists_with_special_form_member") > 0 {
+		run.Outcome("special-form-member-proof-validated")
+	}
+	run.Set("rule", "a case is one (list, subset) proof, distinct by construction (every bitmask once per list; lists = one all-opaque list per n, plus for n <= special_member_lists_up_to_n one list per (value of special form, position of that value in the list)), plus each of its single tamperings. Non-trivial = proofs that contain at least one assist hash and at least one proven leaf (so the tree is really traversed). For n <= every_subset_up_to_n every subset and, per proof, every hash position x {fresh hash, id and leaf hash of every list element, every other proof hash} and every flag position x {0,1,2,3,255}; for larger n the subsets are size <= 2, contiguous ranges and singleton complements and hash substitutes are the fresh hash, the two neighbouring proof hashes and ids/leaf hashes of the list ends and of the elements at and next to the subset ends (proofs with more than 40 flags: fresh hash, all-zero hash and neighbours only, flag values 0..3). Values of special form (special_form_values = 19: every zero/non-zero pattern of the four 64-bit words of an id incl. the all-zero id, all-ones, 00..01, 80..00, SHA3-256 of the empty string): for n <= 8 each of them is used as proof-hash substitute at every hash position, as wrong root, and as claimed related id that is not a list member at every position of the claim (inserted at 0..|S|, replacing each member; also for the empty subset); for larger n and in the special-member lists a short family of 5 (all-zero, all-ones, 00..01, first word zero, last word zero), above every_subset_up_to_n at the ends and the middle of the claim only. Special-member lists get every subset and the full tampering of the small lists.")
 	run.Assume("golang.org/x/crypto/sha3 is trusted as SHA3-256 (anchored on the empty-string digest); hash collisions are not considered")
-	run.Assume("transaction ids are opaque distinct 32-byte values; the algorithm does not look inside them, so one list per size is enumerated")
+	run.Assume("transaction ids are distinct 32-byte values; that the algorithm does not look inside them is not assumed for the 19 values of special form (enumerated as members, foreign ids, substitutes and roots); all other ids are SHA3 digests, one list per size, so a special treatment of a value outside that family is not seen")
+	run.Assume("a nil pointer in the related set is not a hash: what the validator does with it (panics on the unchanged tree) is counted, not judged")
 	run.Assume("related transactions are passed in list order (both callers in the node filter block.Transactions in order); trailing elements after a complete proof and re-ordered related sets are counted as observations, not tamperings of a proof hash or flag")
 	run.Finish()
 }
